@@ -16,8 +16,9 @@ MANIFEST = {
     "text": "Theorems C14_reassembly (for ALL preambles, ALL well-formed streams F0 M1 F1 .. Mn Fn, ALL chunk lists whose concatenation is "
             "the stream: the OnMessageReceived calls are exactly M1..Mn in order, the run ends normally with an empty fragment buffer), "
             "C14_reassembly_prefix (the same after every prefix of the stream), C14_chunking_unobservable (= Spec stream_parse of the "
-            "concatenated bytes), C14_raw (raw receiver: every non-empty chunk unmodified, in order), C14_reassembly_oversize_refuted "
-            "(a header announcing 2^32-8 payload bytes makes OnDataReceived recurse without end). The theorems are about Model/Conn.v, "
+            "concatenated bytes), C14_raw (raw receiver: every non-empty chunk unmodified, in order), C14_safe / C14_never_fails (the repaired code on "
+            "EVERY input -- arbitrary bytes, arbitrary chunking: never an out-of-bounds read of the data, never a failed assert, always "
+            "terminates within fuel 2*count+2; invariant of the reachable states). The theorems are about Model/Conn.v, "
             "a function-by-function model of the non-__arm__ branch of IConnection.cpp with explicit uint32 wrap-around, explicit "
             "out-of-bounds / assert / non-termination outcomes, and the header layout regenerated from MsgHeader.h (Gen/CxxConn.v).",
     "note": "Trusted: Coq 8.16.1 kernel; no axioms; translator/cxxconn.py (header layout, parameter widths, preamble byte order, function "
@@ -38,8 +39,8 @@ RULE = ("(a) exhaustive: every single-message stream with a payload of <= 2 (qui
         "(e) raw receiver: chunks vs deliveries. A case = one (preamble, chunk list); distinct = distinct (preamble, chunk list); "
         "non-trivial = at least one message delivered or at least one byte left pending / skipped")
 ASSUMPTIONS = [
-    "every message: header + payload < 2^32 bytes (uint32 msgSize = SizeOfHeader + PayloadSize, OnMessageReceived takes a uint32 count); "
-    "without it C14_reassembly_oversize_refuted / known finding K-C14-1",
+    "C14_reassembly: every message has header + payload < 2^32 bytes (OnMessageReceived takes a uint32 count; the repaired code discards "
+    "a header with PayloadSize > 0xFFFFFFFF - SizeOfHeader, fixed findings K-C14-1/2); C14_safe needs no assumption on the bytes",
     "every chunk: length + 8 <= 2^32 (count is a uint32 and uint32 totalFragmentedByteCount = count + pending bytes must not wrap)",
     "fillers between messages do not contain the preamble's first byte (as in the property statement)",
     "a message receiver is installed before the first byte arrives and the preamble does not change in between",
@@ -57,11 +58,11 @@ ALLOWED_AXIOMS = []
 
 # fingerprint of the C++ text the model was written against (translator/cxxconn.py: conn_fingerprint); a different value is no
 # alarm, it multiplies the correspondence budget
-MODELLED_FINGERPRINT = "0d44e94ac2a91de53d7890c06270e96e49bee98f3873433a5aaf10abc88c597c"
+MODELLED_FINGERPRINT = "5cf5b87a5e23c33e2c8e3edc774a0dfcfcd80922d4b453f1daf5f31218970107"
 MODELLED_FUNCTIONS = ["ResetFragmentation", "FindPreamble", "PutIntoFragmentBuffer", "HandleFragmentedData", "HandleUnfragmentedData",
                       "OnDataReceived"]
 OVERSIZE = {"preamble": b"\xaa\x55", "chunks": [bytes.fromhex("aa550100f8ffffff")], "oversize": True,
-            "finding_key": "oversize-header:unfragmented"}
+            "finding_key": "oversize-header:unfragmented"}     # fixed finding K-C14-1: must stay clean
 
 
 def gen_facts():
@@ -253,6 +254,18 @@ def _run(ctx, probe, exe):
             s = conn.malformed_stream(rng, p)
             chunks = conn.random_chunking(rng, s)
             m, r = correspond(ctx, probe, p, chunks, "malformed stream")
+            if m[0] != "ok" and len(ctx.broken) < MAX_REPORTS:
+                ctx.tie_broken("extracted model ends with %r on arbitrary bytes although C14_safe is proved" % m[0],
+                               {"preamble": p.hex(), "chunks": [c.hex() for c in chunks]})
+            if conn.has_oversize_header(p, s):
+                ctx.count("malformed_with_oversize_header")
+                # which of the two new branches: the 8 header bytes inside one chunk (unfragmented path possible) or split (fragmented path)
+                i = next(k for k in range(len(s)) if conn.has_oversize_header(p, s[k:k + 8]))
+                pos = 0
+                for c in chunks:
+                    if pos <= i < pos + len(c):
+                        ctx.count("oversize_header_inside_one_chunk" if i + 8 <= pos + len(c) else "oversize_header_split_over_chunks")
+                    pos += len(c)
             if r[0] == "crash" and not enough(ctx):
                 predicted = m[0] in ("oob", "fuel")
                 ctx.violation("sanitizer report / crash of the real code on a malformed stream",
@@ -326,7 +339,7 @@ def _search(ctx, probe, exe):
         observe(ctx, probe, p, chunks, [m for _f, m in items], "long well-formed stream")
         ctx.case((p, tuple(chunks)))
         ctx.count("long_streams")
-    # K-C14-1: header announcing 2^32 - 8 payload bytes
+    # fixed K-C14-1: header announcing 2^32 - 8 payload bytes, in a process of its own (it used to overflow the stack)
     crashed, how = oversize_replay(exe)
     ctx.case(("oversize",))
     ctx.count("oversize_header_%s" % ("crashes:" + how if crashed else "survives"))
